@@ -11,6 +11,7 @@ import (
 	"bytes"
 	"fmt"
 	"net"
+	"runtime/debug"
 	"strings"
 	"sync"
 	"sync/atomic"
@@ -261,15 +262,29 @@ func (sp spec) goTest(wire bool, body string) string {
 		}
 	}
 	b.WriteString(body)
-	b.WriteString("\t_, _, _, _, _, _ = bytes.Equal, hex.EncodeToString, fmt.Sprint, time.Second, iana.HWTypeEthernet, net.IPv6len\n}\n")
+	b.WriteString("\t_, _, _, _, _, _, _ = d, bytes.Equal, hex.EncodeToString, fmt.Sprint, time.Second, iana.HWTypeEthernet, net.IPv6len\n}\n")
 	return b.String()
 }
 
-func bodyWantBytes(call, wantHex string) string {
+// lazy is a piece of reproduction-test source that is only rendered when a
+// violation is actually written out.
+type lazy func() string
+
+func lit(s string) lazy { return func() string { return s } }
+
+func bodyWantBytes(call lazy, want []byte) lazy {
+	return func() string { return bodyWantBytesS(call(), fw.Hex(want)) }
+}
+
+func bodyWantErr(call lazy) lazy {
+	return func() string { return bodyWantErrS(call()) }
+}
+
+func bodyWantBytesS(call, wantHex string) string {
 	return fmt.Sprintf("\tx, err := %s\n\tif err != nil {\n\t\tt.Fatalf(\"unexpected error: %%v\", err)\n\t}\n\tif got, want := hex.EncodeToString(x.ToBytes()), %q; got != want {\n\t\tt.Fatalf(\"got  %%s\\nwant %%s\", got, want)\n\t}\n", call, wantHex)
 }
 
-func bodyWantErr(call string) string {
+func bodyWantErrS(call string) string {
 	return fmt.Sprintf("\tx, err := %s\n\tif err == nil {\n\t\tt.Fatalf(\"expected an error, got %%v\", x)\n\t}\n", call)
 }
 
@@ -395,17 +410,17 @@ func (k *kase) variant() string {
 	return "as-built"
 }
 
-func (k *kase) fail(fp, observed, expected, explain, body string) {
+func (k *kase) fail(fp, observed, expected, explain string, body lazy) {
 	k.ck.report(fp+"|"+k.variant(), k.order, k.scope, func() fw.Violation {
 		return fw.Violation{
 			Input:    fmt.Sprintf("%s; %s; chain bytes %s", k.sp.String(), k.variant(), fw.Hex(fullModel(k.sp).Encode())),
 			Observed: observed, Expected: expected, Explain: explain,
-			GoTest: k.sp.goTest(k.wire, body),
+			GoTest: k.sp.goTest(k.wire, body()),
 		}
 	})
 }
 
-func (k *kase) panicked(entry string, pv any, st string, body string) {
+func (k *kase) panicked(entry string, pv any, st string, body lazy) {
 	k.fail(entry+"|panic|"+fw.PanicSite(st), fmt.Sprintf("panic: %v at %s", pv, st), "a value or an error", "the call panicked", body)
 }
 
@@ -427,7 +442,7 @@ func (k *kase) build() (dhcpv6.DHCPv6, *dhcpv6.Message) {
 		before := cur.ToBytes()
 		var r *dhcpv6.RelayMessage
 		var err error
-		encBody := "\t// (the loop above already fails on this error)\n"
+		encBody := lit("\t// (the loop above already fails on this error)\n")
 		if pv, st := fw.Safe(func() {
 			r, err = dhcpv6.EncapsulateRelay(cur, dhcpv6.MessageType(typ), net.IP(append([]byte{}, la[:]...)), net.IP(append([]byte{}, pa[:]...)))
 		}); pv != nil {
@@ -445,7 +460,12 @@ func (k *kase) build() (dhcpv6.DHCPv6, *dhcpv6.Message) {
 		if r.HopCount != want.Hop {
 			k.fail("EncapsulateRelay|hop-count", fmt.Sprintf("relay around %d inner relay level(s) has hop count %d", lv, r.HopCount),
 				fmt.Sprintf("hop count %d (innermost relay 0, one more per level)", want.Hop),
-				"the hop count must grow by one per level", bodyWantBytes("d, error(nil)", fw.Hex(fullModel(sp).Encode())))
+				"the hop count must grow by one per level", func() lazy {
+					if sp.dropP1 > 0 {
+						return lit("\tfor x := d; x != nil && x.IsRelay(); x = x.(*dhcpv6.RelayMessage).Options.RelayMessage() {\n\t\tt.Log(\"hop count\", x.(*dhcpv6.RelayMessage).HopCount) // expected: depth-1 down to 0\n\t}\n")
+					}
+					return bodyWantBytes(lit("d, error(nil)"), fullModel(sp).Encode())
+				}())
 		}
 		if sp.opts[lv]&1 != 0 {
 			r.AddOption(dhcpv6.OptInterfaceID(iidVal(lv)))
@@ -459,7 +479,7 @@ func (k *kase) build() (dhcpv6.DHCPv6, *dhcpv6.Message) {
 		}
 		// decapsulating returns the original
 		var dd dhcpv6.DHCPv6
-		decBody := bodyWantBytes("dhcpv6.DecapsulateRelay(d) // on the chain cut after this level", fw.Hex(before))
+		decBody := bodyWantBytes(lit("dhcpv6.DecapsulateRelay(d) // on the chain cut after this level"), before)
 		if pv, st := fw.Safe(func() { dd, err = dhcpv6.DecapsulateRelay(r) }); pv != nil {
 			k.panicked("DecapsulateRelay", pv, st, decBody)
 			return nil, nil
@@ -506,7 +526,7 @@ func fullModel(sp spec) v6chain.Chain {
 // with the model.
 func (k *kase) structure(d dhcpv6.DHCPv6) bool {
 	wantBytes := k.model.Encode()
-	body := bodyWantBytes("d, error(nil)", fw.Hex(wantBytes))
+	body := bodyWantBytes(lit("d, error(nil)"), wantBytes)
 	var got v6chain.Chain
 	var werr error
 	var raw []byte
@@ -522,6 +542,9 @@ func (k *kase) structure(d dhcpv6.DHCPv6) bool {
 		k.fail("chain-fields|"+f, det, "the list-of-levels model", "a field of the chain differs from the model (hop count = level index, per-level addresses and options, inner message)", body)
 		ok = false
 	}
+	if !ok {
+		return false
+	}
 	dec, derr := v6chain.Decode(raw)
 	if derr != nil {
 		k.fail("chain-bytes|undecodable", derr.Error()+" in "+fw.HexShort(raw), fw.HexShort(wantBytes), "the serialised chain is not a well-formed RFC 8415 relay chain", body)
@@ -534,35 +557,38 @@ func (k *kase) structure(d dhcpv6.DHCPv6) bool {
 	return ok
 }
 
-func (k *kase) getInner(d dhcpv6.DHCPv6, entry string, want []byte, wantType byte, wantXID [3]byte, body string) {
+func (k *kase) getInner(d dhcpv6.DHCPv6, entry string, want []byte, wantType byte, wantXID [3]byte, body lazy) bool {
 	var m *dhcpv6.Message
 	var err error
 	if pv, st := fw.Safe(func() { m, err = d.GetInnerMessage() }); pv != nil {
 		k.panicked(entry, pv, st, body)
-		return
+		return false
 	}
 	if err != nil || m == nil {
 		k.fail(entry+"|not-found", fmt.Sprintf("message=%v err=%v (depth %d)", m, err, k.model.Depth()), "the inner message "+fw.HexShort(want),
 			"the innermost message of a relay chain must be found whatever the depth", body)
-		return
+		return false
 	}
 	var got []byte
 	if pv, st := fw.Safe(func() { got = m.ToBytes() }); pv != nil {
 		k.panicked(entry, pv, st, body)
-		return
+		return false
 	}
 	if !bytes.Equal(got, want) || byte(m.MessageType) != wantType || [3]byte(m.TransactionID) != wantXID {
 		k.fail(entry+"|wrong-message", fmt.Sprintf("type %d xid %x bytes %s", m.MessageType, m.TransactionID, fw.HexShort(got)),
 			fmt.Sprintf("type %d xid %x bytes %s", wantType, wantXID, fw.HexShort(want)),
 			"GetInnerMessage must return the innermost message", body)
+		return false
 	}
+	return true
 }
 
 func (k *kase) index(d dhcpv6.DHCPv6) {
 	depth := k.model.Depth()
+	sub := k.model.EncodeAll()
 	for i := -3; i <= depth+2; i++ {
-		want, verdict := k.model.Index(i)
-		call := fmt.Sprintf("dhcpv6.DecapsulateRelayIndex(d, %d)", i)
+		wantLevels, verdict := k.model.IndexLevels(i)
+		call := lazy(func() string { return fmt.Sprintf("dhcpv6.DecapsulateRelayIndex(d, %d)", i) })
 		var x dhcpv6.DHCPv6
 		var err error
 		if pv, st := fw.Safe(func() { x, err = dhcpv6.DecapsulateRelayIndex(d, i) }); pv != nil {
@@ -581,8 +607,8 @@ func (k *kase) index(d dhcpv6.DHCPv6) {
 				k.fail("DecapsulateRelayIndex|accepts|"+cls, fmt.Sprintf("index %d: value %v, no error", i, x), "an error", "an index below -1 is invalid", bodyWantErr(call))
 			}
 		case v6chain.Accept:
-			wb := want.Encode()
-			body := bodyWantBytes(call, fw.Hex(wb))
+			wb := sub[wantLevels]
+			body := bodyWantBytes(call, wb)
 			if err != nil || x == nil {
 				k.fail("DecapsulateRelayIndex|error|"+cls, fmt.Sprintf("index %d on depth %d: value=%v err=%v", i, depth, x, err), fw.HexShort(wb),
 					"index i = i+1 decapsulations (0 removes the outermost header), -1 = the innermost relay", body)
@@ -593,9 +619,9 @@ func (k *kase) index(d dhcpv6.DHCPv6) {
 				k.panicked("DecapsulateRelayIndex", pv, st, body)
 				continue
 			}
-			if !bytes.Equal(got, wb) || x.IsRelay() != (want.Depth() > 0) {
+			if !bytes.Equal(got, wb) || x.IsRelay() != (wantLevels > 0) {
 				k.fail("DecapsulateRelayIndex|wrong-level|"+cls, fmt.Sprintf("index %d on depth %d: relay=%v bytes %s", i, depth, x.IsRelay(), fw.HexShort(got)),
-					fmt.Sprintf("relay=%v bytes %s (the chain with %d level(s) left)", want.Depth() > 0, fw.HexShort(wb), want.Depth()),
+					fmt.Sprintf("relay=%v bytes %s (the chain with %d level(s) left)", wantLevels > 0, fw.HexShort(wb), wantLevels),
 					"index i = i+1 decapsulations (0 removes the outermost header), -1 = the innermost relay", body)
 			}
 		default:
@@ -636,7 +662,9 @@ func (k *kase) relayRepl(d dhcpv6.DHCPv6) {
 	reply, refReply := replyFor(k.sp)
 	replyBytes := refReply.Encode()
 	want, verdict := k.model.ReplyChain(refReply)
-	call := fmt.Sprintf("dhcpv6.NewRelayReplFromRelayForw(d.(*dhcpv6.RelayMessage), func() *dhcpv6.Message { b, _ := hex.DecodeString(%q); m, _ := dhcpv6.MessageFromBytes(b); return m }())", fw.Hex(replyBytes))
+	call := lazy(func() string {
+		return fmt.Sprintf("dhcpv6.NewRelayReplFromRelayForw(d.(*dhcpv6.RelayMessage), func() *dhcpv6.Message { b, _ := hex.DecodeString(%q); m, _ := dhcpv6.MessageFromBytes(b); return m }())", fw.Hex(replyBytes))
+	})
 	var res dhcpv6.DHCPv6
 	var err error
 	if pv, st := fw.Safe(func() { res, err = dhcpv6.NewRelayReplFromRelayForw(rm, reply) }); pv != nil {
@@ -659,7 +687,9 @@ func (k *kase) relayRepl(d dhcpv6.DHCPv6) {
 		k.ck.distinct("NewRelayReplFromRelayForw(outermost RELAY-FORW, a deeper level RELAY-REPL): value")
 	}
 	wb := want.Encode()
-	body := bodyWantBytes(call, fw.Hex(wb)) + "\t// (expected bytes assume the option order relay-msg, interface-id, remote-id; the check itself compares field by field)\n"
+	body := lazy(func() string {
+		return bodyWantBytes(call, wb)() + "\t// (expected bytes assume the option order relay-msg, interface-id, remote-id; the check itself compares field by field)\n"
+	})
 	if err != nil || res == nil {
 		k.fail("NewRelayReplFromRelayForw|rejects-relay-forward-chain", fmt.Sprintf("value=%v err=%v", res, err), "a relay-reply chain of depth "+fmt.Sprint(want.Depth()),
 			"every level is RELAY-FORW with an embedded message and the reply is not nil", body)
@@ -669,33 +699,43 @@ func (k *kase) relayRepl(d dhcpv6.DHCPv6) {
 	saved := k.model
 	k.model = want
 	defer func() { k.model = saved }()
-	check := func(stage string, x dhcpv6.DHCPv6) {
+	// check returns false once a difference has been reported, so that one defect
+	// is filed under one class (the earliest stage that shows it)
+	check := func(stage string, x dhcpv6.DHCPv6) bool {
 		var got v6chain.Chain
 		var werr error
 		var raw []byte
 		if pv, st := fw.Safe(func() { got, werr = walk(x); raw = x.ToBytes() }); pv != nil {
 			k.panicked("NewRelayReplFromRelayForw", pv, st, body)
-			return
+			return false
 		}
 		if werr != nil {
 			k.fail("NewRelayReplFromRelayForw|result-unreadable|"+stage, werr.Error(), "a relay-reply chain of depth "+fmt.Sprint(want.Depth()), "the result cannot be walked", body)
-			return
+			return false
 		}
 		if f, det := v6chain.DiffLevels(got, want); f != "" {
 			k.fail("NewRelayReplFromRelayForw|"+f+"|"+stage, det, "same depth; every level RELAY-REPL with that level's link, peer, hop count, interface-id, remote-id",
 				"the relay-reply chain must mirror the relay-forward chain level by level", body)
-		} else if f, det := v6chain.DiffInner(got.Inner, want.Inner); f != "" {
+			return false
+		}
+		if f, det := v6chain.DiffInner(got.Inner, want.Inner); f != "" {
 			k.fail("NewRelayReplFromRelayForw|reply-not-innermost|"+stage, det, "the given reply "+fw.HexShort(replyBytes), "the relay-reply chain must carry the given reply innermost", body)
+			return false
 		}
 		dec, derr := v6chain.Decode(raw)
 		if derr != nil {
 			k.fail("NewRelayReplFromRelayForw|bytes-undecodable|"+stage, derr.Error()+" in "+fw.HexShort(raw), fw.HexShort(wb), "the serialised relay-reply is not a well-formed relay chain", body)
-		} else if f, det := v6chain.Diff(dec, want); f != "" {
-			k.fail("NewRelayReplFromRelayForw|bytes:"+f+"|"+stage, det+"; bytes "+fw.HexShort(raw), fw.HexShort(wb), "the serialised relay-reply read by the reference decoder differs from the model", body)
+			return false
 		}
-		k.getInner(x, "NewRelayReplFromRelayForw+GetInnerMessage("+stage+")", replyBytes, v6chain.Reply, k.sp.xid, body)
+		if f, det := v6chain.Diff(dec, want); f != "" {
+			k.fail("NewRelayReplFromRelayForw|bytes:"+f+"|"+stage, det+"; bytes "+fw.HexShort(raw), fw.HexShort(wb), "the serialised relay-reply read by the reference decoder differs from the model", body)
+			return false
+		}
+		return k.getInner(x, "NewRelayReplFromRelayForw+GetInnerMessage("+stage+")", replyBytes, v6chain.Reply, k.sp.xid, body)
 	}
-	check("result", res)
+	if !check("result", res) {
+		return
+	}
 	var raw []byte
 	if pv, _ := fw.Safe(func() { raw = res.ToBytes() }); pv != nil {
 		return // reported by check
@@ -719,13 +759,13 @@ func (k *kase) observe(d dhcpv6.DHCPv6) {
 	}
 	innerBytes := k.model.Inner.Encode()
 	k.getInner(d, "GetInnerMessage", innerBytes, k.model.Inner.Type, k.model.Inner.XID,
-		bodyWantBytes("d.GetInnerMessage()", fw.Hex(innerBytes)))
+		bodyWantBytes(lit("d.GetInnerMessage()"), innerBytes))
 	k.index(d)
 	k.relayRepl(d)
 }
 
 func (k *kase) wireTrip(d dhcpv6.DHCPv6) dhcpv6.DHCPv6 {
-	body := bodyWantBytes("d, error(nil)", fw.Hex(k.model.Encode()))
+	body := bodyWantBytes(lit("d, error(nil)"), k.model.Encode())
 	var raw []byte
 	if pv, st := fw.Safe(func() { raw = d.ToBytes() }); pv != nil {
 		k.panicked("ToBytes", pv, st, body)
@@ -779,7 +819,7 @@ func (k *kase) runBuilders(m *dhcpv6.Message) {
 	in := k.model.Inner
 	for _, b := range builders {
 		exp, verdict, reason := b.rule(in)
-		call := "dhcpv6." + b.name + "(inner)"
+		call := lit("dhcpv6." + b.name + "(inner)")
 		var res *dhcpv6.Message
 		var err error
 		if pv, st := fw.Safe(func() { res, err = b.call(m) }); pv != nil {
@@ -801,34 +841,40 @@ func (k *kase) runBuilders(m *dhcpv6.Message) {
 			}
 			k.ck.distinct(b.name + "(" + reason + "): value")
 		}
-		body := fmt.Sprintf("\tx, err := %s\n\tif err != nil {\n\t\tt.Fatal(err)\n\t}\n\tt.Logf(\"result %%s\", x.Summary()) // expected: type %d, %s, first instance of the echoed options byte-equal to the input's\n",
-			call, exp.Type, map[bool]string{true: "the input's transaction id", false: "any transaction id"}[exp.KeepXID])
+		body := lazy(func() string {
+			return fmt.Sprintf("\tx, err := %s\n\tif err != nil {\n\t\tt.Fatal(err)\n\t}\n\tt.Logf(\"result %%s\", x.Summary()) // expected: type %d, %s, first instance of the echoed options byte-equal to the input's\n",
+				call(), exp.Type, map[bool]string{true: "the input's transaction id", false: "any transaction id"}[exp.KeepXID])
+		})
 		if err != nil || res == nil {
 			k.fail(b.name+"|rejects-valid-input|"+typeName(in.Type), fmt.Sprintf("value=%v err=%v", res, err), "a "+typeName(exp.Type),
 				"the input has the right type and carries every option the builder echoes", body)
 			continue
 		}
-		stageCheck := func(stage string, x *dhcpv6.Message) {
+		stageCheck := func(stage string, x *dhcpv6.Message) bool {
 			var raw []byte
 			var held v6chain.Inner
 			if pv, st := fw.Safe(func() { raw = x.ToBytes(); held = innerOf(x) }); pv != nil {
 				k.panicked(b.name, pv, st, body)
-				return
+				return false
 			}
 			if f, det := v6chain.CheckResult(held, in, exp); f != "" {
 				k.fail(b.name+"|"+f+"|"+stage, det+"; result "+fw.HexShort(raw), "type, transaction id and echoed options as the statement says", "builder result (exported fields) differs from the reference rule", body)
-				return
+				return false
 			}
 			dec, derr := v6chain.Decode(raw)
 			if derr != nil || dec.Depth() != 0 {
 				k.fail(b.name+"|bytes-undecodable|"+stage, fmt.Sprintf("%v in %s", derr, fw.HexShort(raw)), "a plain message", "the serialised builder result is not a well-formed message", body)
-				return
+				return false
 			}
 			if f, det := v6chain.CheckResult(dec.Inner, in, exp); f != "" {
 				k.fail(b.name+"|bytes:"+f+"|"+stage, det+"; result "+fw.HexShort(raw), "type, transaction id and echoed options as the statement says", "builder result (as serialised) differs from the reference rule", body)
+				return false
 			}
+			return true
 		}
-		stageCheck("result", res)
+		if !stageCheck("result", res) {
+			continue
+		}
 		var raw []byte
 		if pv, _ := fw.Safe(func() { raw = res.ToBytes() }); pv != nil {
 			continue
@@ -864,7 +910,7 @@ func (ck *checker) runPlain(order int64, sp spec) {
 			}
 			var ok bool
 			if mm, ok = w.(*dhcpv6.Message); !ok {
-				kk.fail("FromBytes|plain-message-became-relay", fmt.Sprintf("%T", w), "*dhcpv6.Message", "a plain message must parse as a plain message", "")
+				kk.fail("FromBytes|plain-message-became-relay", fmt.Sprintf("%T", w), "*dhcpv6.Message", "a plain message must parse as a plain message", lit(""))
 				continue
 			}
 		}
@@ -872,11 +918,11 @@ func (ck *checker) runPlain(order int64, sp spec) {
 			continue
 		}
 		ib := kk.model.Inner.Encode()
-		kk.getInner(mm, "GetInnerMessage", ib, sp.ityp, sp.xid, bodyWantBytes("d.GetInnerMessage()", fw.Hex(ib)))
+		kk.getInner(mm, "GetInnerMessage", ib, sp.ityp, sp.xid, bodyWantBytes(lit("d.GetInnerMessage()"), ib))
 		kk.index(mm) // a plain message is returned as it is
 		var dd dhcpv6.DHCPv6
 		var err error
-		body := bodyWantBytes("dhcpv6.DecapsulateRelay(d)", fw.Hex(ib))
+		body := bodyWantBytes(lit("dhcpv6.DecapsulateRelay(d)"), ib)
 		if pv, st := fw.Safe(func() { dd, err = dhcpv6.DecapsulateRelay(mm) }); pv != nil {
 			kk.panicked("DecapsulateRelay", pv, st, body)
 		} else if err != nil || dd == nil || !bytes.Equal(dd.ToBytes(), ib) {
@@ -918,13 +964,17 @@ func innerOfIndex(i int) (byte, int) { return byte(i%nTypes) + 1, i / nTypes }
 func xidOf(i int64) [3]byte { return [3]byte{0xc1 ^ byte(i>>16), byte(i >> 8), byte(i)} }
 
 func Run(c *fw.Ctx) {
+	// The live heap is a few MB while every case allocates many short-lived
+	// buffers, so the default pacing spends half the run in GC cycles. Only the
+	// pacing changes; nothing that is checked depends on it.
+	defer debug.SetGCPercent(debug.SetGCPercent(1600))
 	c.SetRule("cases are enumerated injectively: (chain shape = depth + per-level {interface-id, remote-id} subset) x relay type pattern x inner message (type x option subset); " +
 		"non-trivial = the chain was built with EncapsulateRelay and actually compared with the list-of-levels model (fields, bytes, GetInnerMessage, every DecapsulateRelayIndex, NewRelayReplFromRelayForw), " +
 		"as built and after ToBytes/FromBytes; duplicates (type patterns 2,3 at depth 1) are skipped and not counted; builder scope: one case per inner message, counted non-trivial when at least one builder accepted it and its result was compared")
 	ck := &checker{c: c, best: map[string]int64{}}
 	fullDepth := 3
 	if c.Thorough() {
-		fullDepth = 4
+		fullDepth = 5
 	}
 	sh := shapes(fullDepth)
 	perShape := int64(nPat * nInner)
@@ -954,6 +1004,7 @@ func Run(c *fw.Ctx) {
 		"addresses", "link 2001:db8::<level+1>:1, peer fe80::<level+1>:2 (distinct per level)",
 		"inner_messages", "message types 1..11 x all 64 subsets of {client-id, server-id, IA_NA, IA_PD, rapid-commit, vendor-class} = 704",
 		"variants", "as built with EncapsulateRelay + AddOption/UpdateOption, and after ToBytes/FromBytes",
+		"skipped_duplicates", "type patterns 2 and 3 at depth 1 (identical to 0 and 1): 4 shapes x 2 x 704 = 5632 indices, not counted as non-trivial",
 		"observers", "exported fields, ToBytes via reference decoder, DecapsulateRelay after every EncapsulateRelay, GetInnerMessage, DecapsulateRelayIndex for every index -3..depth+2, NewRelayReplFromRelayForw (result as held, as serialised, after a wire trip)",
 		"cases", total)
 	order := total
@@ -994,7 +1045,7 @@ func Run(c *fw.Ctx) {
 			}
 			var r *dhcpv6.RelayMessage
 			var err error
-			call := fmt.Sprintf("dhcpv6.EncapsulateRelay(d, dhcpv6.MessageType(%d), net.ParseIP(\"2001:db8::1\"), net.ParseIP(\"fe80::2\"))", t)
+			call := lit(fmt.Sprintf("dhcpv6.EncapsulateRelay(d, dhcpv6.MessageType(%d), net.ParseIP(\"2001:db8::1\"), net.ParseIP(\"fe80::2\"))", t))
 			if pv, st := fw.Safe(func() {
 				r, err = dhcpv6.EncapsulateRelay(d, dhcpv6.MessageType(t), net.ParseIP("2001:db8::1"), net.ParseIP("fe80::2"))
 			}); pv != nil {
@@ -1007,7 +1058,7 @@ func Run(c *fw.Ctx) {
 					"the relay type must be RELAY-FORW or RELAY-REPL", bodyWantErr(call))
 			}
 			if valid && (err != nil || r == nil) {
-				k.fail("EncapsulateRelay|rejects-relay-type", fmt.Sprintf("type %d: %v", t, err), "a relay message", "RELAY-FORW and RELAY-REPL are the valid types", "\tx, err := "+call+"\n\tt.Log(x, err)\n")
+				k.fail("EncapsulateRelay|rejects-relay-type", fmt.Sprintf("type %d: %v", t, err), "a relay message", "RELAY-FORW and RELAY-REPL are the valid types", lit("\tx, err := "+call()+"\n\tt.Log(x, err)\n"))
 			}
 			if valid {
 				c.Nontrivial(1)
@@ -1039,26 +1090,29 @@ func Run(c *fw.Ctx) {
 						continue
 					}
 				}
-				note := fmt.Sprintf("\t// before this: remove the relay-msg option of level %d (0 = innermost): that RelayMessage's Options.Del(dhcpv6.OptionRelayMsg)\n", drop)
+				replyHex := fw.Hex(func() []byte { _, r := replyFor(sp); return r.Encode() }())
+				noteRR := bodyWantErr(lit(fmt.Sprintf("dhcpv6.NewRelayReplFromRelayForw(d.(*dhcpv6.RelayMessage), func() *dhcpv6.Message { b, _ := hex.DecodeString(%q); m, _ := dhcpv6.MessageFromBytes(b); return m }())", replyHex)))
+				noteGI := lit("\tm, err := d.GetInnerMessage()\n\tif m != nil {\n\t\tt.Fatalf(\"found %v (err=%v) in a chain without inner message\", m, err)\n\t}\n")
+				noteIX := lit("\tfor i := -1; i <= 4; i++ {\n\t\tx, err := dhcpv6.DecapsulateRelayIndex(d, i)\n\t\tt.Log(i, x, err)\n\t}\n")
 				reply, _ := replyFor(sp)
 				var res dhcpv6.DHCPv6
 				var err error
 				if pv, st := fw.Safe(func() { res, err = dhcpv6.NewRelayReplFromRelayForw(d.(*dhcpv6.RelayMessage), reply) }); pv != nil {
-					k.panicked("NewRelayReplFromRelayForw", pv, st, note)
+					k.panicked("NewRelayReplFromRelayForw", pv, st, noteRR)
 				} else if err == nil {
 					k.fail("NewRelayReplFromRelayForw|accepts|level-without-embedded-message", fmt.Sprintf("no error, result %v", res), "an error",
-						fmt.Sprintf("level %d of %d has no relay-msg option: there is no chain to mirror", drop, depth), note)
+						fmt.Sprintf("level %d of %d has no relay-msg option: there is no chain to mirror", drop, depth), noteRR)
 				}
 				var m *dhcpv6.Message
 				if pv, st := fw.Safe(func() { m, err = d.GetInnerMessage() }); pv != nil {
-					k.panicked("GetInnerMessage", pv, st, note)
+					k.panicked("GetInnerMessage", pv, st, noteGI)
 				} else if m != nil {
 					k.fail("GetInnerMessage|finds-message-in-chain-without-one", fmt.Sprintf("message %v err=%v", m, err), "no message (nil)",
-						"GetInnerMessage returns nil if none is found", note)
+						"GetInnerMessage returns nil if none is found", noteGI)
 				}
 				for i := -1; i <= depth; i++ {
 					if pv, st := fw.Safe(func() { _, _ = dhcpv6.DecapsulateRelayIndex(d, i) }); pv != nil {
-						k.panicked("DecapsulateRelayIndex", pv, st, note)
+						k.panicked("DecapsulateRelayIndex", pv, st, noteIX)
 					}
 				}
 			}
@@ -1073,14 +1127,14 @@ func Run(c *fw.Ctx) {
 		nd += 2
 		if d != nil {
 			var err error
-			call := "dhcpv6.NewRelayReplFromRelayForw(d.(*dhcpv6.RelayMessage), nil)"
+			call := lit("dhcpv6.NewRelayReplFromRelayForw(d.(*dhcpv6.RelayMessage), nil)")
 			if pv, st := fw.Safe(func() { _, err = dhcpv6.NewRelayReplFromRelayForw(d.(*dhcpv6.RelayMessage), nil) }); pv != nil {
 				k.panicked("NewRelayReplFromRelayForw", pv, st, bodyWantErr(call))
 			} else if err == nil {
 				k.fail("NewRelayReplFromRelayForw|accepts|nil-reply", "no error", "an error", "there is no reply to carry innermost", bodyWantErr(call))
 			}
 			reply, _ := replyFor(sp)
-			call = "dhcpv6.NewRelayReplFromRelayForw(nil, inner)"
+			call = lit("dhcpv6.NewRelayReplFromRelayForw(nil, inner)")
 			if pv, st := fw.Safe(func() { _, err = dhcpv6.NewRelayReplFromRelayForw(nil, reply) }); pv != nil {
 				k.panicked("NewRelayReplFromRelayForw", pv, st, bodyWantErr(call))
 			} else if err == nil {
